@@ -902,8 +902,11 @@ func runC07(w *mon.Worker) {
 	for i := 0; i < w.Share(w.Scale(64, 2000)); i++ {
 		w.Case("delayed-removal", nil, c07DelayedRemovalCase)
 	}
-	for i := 0; i < w.Share(w.Scale(48, 1500)); i++ {
+	for i := 0; i < w.Share(w.Scale(96, 3000)); i++ {
 		w.Case("retry-template", nil, c07RetryTemplateCase)
+	}
+	for i := 0; i < w.Share(w.Scale(64, 2000)); i++ {
+		w.Case("removal-gate", nil, c07RemovalGateCase)
 	}
 }
 
@@ -921,6 +924,13 @@ func c07BurstCase(c *mon.Case, retry bool) {
 		switch x % 8 {
 		case 0, 1:
 			if retry && n < 40 {
+				switch (x >> 16) % 4 {
+				case 0:
+					// a routine may fail with context.Canceled (e.g. from a sub-context of its own) while its own context is live
+					return false, int(x>>8) % 40, context.Canceled
+				case 1:
+					return false, int(x>>8) % 40, fmt.Errorf("inst-error-%d: %w", n, context.Canceled)
+				}
 				return false, int(x>>8) % 40, fmt.Errorf("inst-error-%d", n)
 			}
 			return true, exitLat, nil
@@ -1297,11 +1307,18 @@ func c07DelayedRemovalCase(c *mon.Case) {
 func c07RetryTemplateCase(c *mon.Case) {
 	r := c.Rng
 	variant := r.IntN(5)
+	errKind := r.IntN(3) // 0 plain error, 1 context.Canceled value, 2 wrapped context.Canceled (the routine's own context stays live)
 	failNow := make(chan struct{})
 	behave := func(n int, key string, ctor int) (bool, int, error) {
 		if n == 0 {
 			if variant == 3 {
 				<-failNow
+			}
+			switch errKind {
+			case 1:
+				return false, 0, context.Canceled
+			case 2:
+				return false, 0, fmt.Errorf("wrapped: %w", context.Canceled)
 			}
 			return false, 0, fmt.Errorf("inst-error-0")
 		}
@@ -1371,7 +1388,8 @@ func c07RetryTemplateCase(c *mon.Case) {
 	c.Rec("d", "inside the backoff interval: "+what, nil)
 	c.Count("calls_while_retry_pending", 1)
 	c.NonTrivial()
-	c.Mix(uint64(variant))
+	c.Mix(uint64(variant)<<4 | uint64(errKind))
+	what += fmt.Sprintf(" (failure error kind %d: 0 plain, 1 context.Canceled, 2 wrapped context.Canceled)", errKind)
 	if !mon.SettleTimers(bo, 3, 3*bo+3*delay, 10*time.Second) {
 		c.Inconclusive("no quiescence after the backoff")
 		return
@@ -1383,6 +1401,68 @@ func c07RetryTemplateCase(c *mon.Case) {
 	}
 	if n := len(w.instances()); n < 2 {
 		c.Violate("retry", "keyed-failed-routine-not-retried", "the routine of key a failed; inside its backoff interval only %s happened; %v later (3 backoff periods, quiescent) it has not been run again although the key is in the set with retry configured", what, time.Since(t0))
+	}
+	w.k.ClearContext()
+}
+
+// c07RemovalGateCase: the delayed-removal timer has fired and its callback is parked before the mutex while the
+// key is requested again: the key stays, its routine keeps its live context, nothing is cancelled.
+func c07RemovalGateCase(c *mon.Case) {
+	r := c.Rng
+	behave := func(n int, key string, ctor int) (bool, int, error) { return true, 0, nil }
+	w := newK7World(c, false, 10*time.Millisecond, behave)
+	cx := &rtCtxs{}
+	defer cx.cancelAll()
+	ctx, _ := cx.fresh()
+	w.k.SetContext(ctx, false)
+	w.mu.Lock()
+	w.epoch["a"] = 1
+	w.mu.Unlock()
+	w.k.SetKey("a", true)
+	g := mon.NewGate(verifhook.KeyedTimer, w.k, 1)
+	w.k.RemoveKey("a")
+	if !g.WaitArrived(5 * time.Second) {
+		g.Release()
+		c.Inconclusive("removal timer never fired")
+		return
+	}
+	how := ""
+	switch r.IntN(3) {
+	case 0:
+		how = "SetKey(start=false)"
+		if _, existed := w.k.SetKey("a", false); !existed {
+			c.Violate("removal", "keyed-pending-key-not-present", "SetKey during the pending removal reports the key as absent")
+		}
+	case 1:
+		how = "SetKey(start=true)"
+		w.k.SetKey("a", true)
+	default:
+		how = "SyncKeys([a])"
+		if added, _ := w.k.SyncKeys([]string{"a"}, false); len(added) != 0 {
+			c.Violate("removal", "keyed-pending-key-not-present", "SyncKeys during the pending removal reports the key as added")
+		}
+	}
+	c.Rec("d", "re-requested by "+how+" while the fired removal-timer callback is parked", nil)
+	g.Release()
+	c.Count("gated_timer_templates", 1)
+	c.NonTrivial()
+	c.Mix(mon.HashBytes([]byte(how)))
+	if !mon.SettleTimers(10*time.Millisecond, 3, 30*time.Millisecond, 5*time.Second) || g.TimedOut.Load() {
+		c.Inconclusive("no quiescence")
+		return
+	}
+	if _, ok := w.k.GetKey("a"); !ok {
+		c.Violate("removal", "keyed-rerequested-key-removed", "the key was requested again by %s after its removal timer had fired but before the callback took the mutex; afterwards the key is gone", how)
+		return
+	}
+	live := 0
+	for _, in := range w.instances() {
+		if in.exit.Load() == 0 && in.ctx.Err() == nil {
+			live++
+		}
+	}
+	if live != 1 {
+		c.Violate("removal", "keyed-rerequested-key-routine-cancelled", "after the re-request (%s) the key is in the set but %d instances with a live context exist, want exactly 1", how, live)
 	}
 	w.k.ClearContext()
 }
